@@ -36,7 +36,9 @@ type urlValue struct {
 func enc(s string) string { return url.PathEscape(s) }
 
 // urlValues lists clearly-valid and clearly-invalid spellings for a kind (DESIGN 3.3: ambiguous
-// spellings such as +1, 0x10, 1e3 for ints, T/1 for bools are never used).
+// spellings such as +1, 0x10, 1e3 for ints, T/1 for bools are never used). Zero-padded decimals
+// (089, 0123) are decimal under every published reading (OpenAPI integer, the documented
+// "string -> integer" conversion) and are asserted.
 func urlValues(k protoreflect.Kind, forPath bool) []urlValue {
 	q := func(s string) string {
 		if forPath {
@@ -60,6 +62,8 @@ func urlValues(k protoreflect.Kind, forPath bool) []urlValue {
 	case protoreflect.Int32Kind, protoreflect.Sint32Kind, protoreflect.Sfixed32Kind:
 		add("pos", "42", protoreflect.ValueOfInt32(42))
 		add("neg", "-7", protoreflect.ValueOfInt32(-7))
+		add("zero-padded", "089", protoreflect.ValueOfInt32(89))
+		add("zero-padded-octal-looking", "0123", protoreflect.ValueOfInt32(123))
 		add("max", "2147483647", protoreflect.ValueOfInt32(math.MaxInt32))
 		add("min", "-2147483648", protoreflect.ValueOfInt32(math.MinInt32))
 		bad("overflow", "2147483648")
@@ -69,6 +73,8 @@ func urlValues(k protoreflect.Kind, forPath bool) []urlValue {
 	case protoreflect.Int64Kind, protoreflect.Sint64Kind, protoreflect.Sfixed64Kind:
 		add("pos", "42", protoreflect.ValueOfInt64(42))
 		add("neg", "-7", protoreflect.ValueOfInt64(-7))
+		add("zero-padded", "089", protoreflect.ValueOfInt64(89))
+		add("zero-padded-octal-looking", "-0123", protoreflect.ValueOfInt64(-123))
 		add("max", "9223372036854775807", protoreflect.ValueOfInt64(math.MaxInt64))
 		add("min", "-9223372036854775808", protoreflect.ValueOfInt64(math.MinInt64))
 		add("gt2p53", "9007199254740993", protoreflect.ValueOfInt64(1<<53+1))
@@ -77,12 +83,16 @@ func urlValues(k protoreflect.Kind, forPath bool) []urlValue {
 		bad("fraction", "1.5")
 	case protoreflect.Uint32Kind, protoreflect.Fixed32Kind:
 		add("pos", "42", protoreflect.ValueOfUint32(42))
+		add("zero-padded", "089", protoreflect.ValueOfUint32(89))
+		add("zero-padded-octal-looking", "0123", protoreflect.ValueOfUint32(123))
 		add("max", "4294967295", protoreflect.ValueOfUint32(math.MaxUint32))
 		bad("negative", "-1")
 		bad("overflow", "4294967296")
 		bad("word", "abc")
 	case protoreflect.Uint64Kind, protoreflect.Fixed64Kind:
 		add("pos", "42", protoreflect.ValueOfUint64(42))
+		add("zero-padded", "089", protoreflect.ValueOfUint64(89))
+		add("zero-padded-octal-looking", "0123", protoreflect.ValueOfUint64(123))
 		add("max", "18446744073709551615", protoreflect.ValueOfUint64(math.MaxUint64))
 		bad("negative", "-1")
 		bad("overflow", "18446744073709551616")
